@@ -185,3 +185,58 @@ def k4(I):
     s2, r2 = _ast(I, Some(t2), [a, b], [x, y])
     I.cover('both')
     I.check('larger_tolerance_accepts', s2 == 'ok' and is_ok(r2))
+
+
+# ---------------------------------------------------------------- handler level (replayable through the public Swap message)
+
+from ..chain import Chain, bank_of
+from .c04 import CONTRACTS, swap_msg, setup_world, _replay_s1, HINT as HINT4
+
+
+def _ob_swap_tolerance(with_tol):
+    def s(I):
+        I.set_hint(HINT4)
+        x = I.sym('reserve_x', lo=1, hi=U128)
+        y = I.sym('reserve_y', lo=1, hi=U128)
+        fees, (p, sf, bu, ex) = sym_fees(I, 0)
+        pool = pool_info('p1', ['uA', 'uB'], [6, 6], [x, y], xyk(), fees)
+        b = setup_world(I, pool)
+        o = I.sym('offer', lo=1, hi=U128)
+        b.set('trader', 'uA', o)
+        b.supply['uA'] = simp(b.supply['uA'] + o)
+        if with_tol:
+            tol = I.sym('max_slippage_atomics', hi=U128)
+            cap = _cap(tol)
+            tol_v = Some(tol)
+        else:
+            cap = DEFAULT
+            tol_v = None
+        ch = Chain(I, CONTRACTS)
+        pre = b.snapshot()
+        st, resp = ch.execute('trader', PM, swap_msg('uB', 'p1', max_slippage=tol_v), [coin_v('uA', o)])
+        if st != 'ok':
+            I.outcome('rejected')
+            return
+        I.cover('ok', HINT4)
+        I.observe('status', 'ok')
+        observe_pool(I, 'p1')
+        observe_bank(I, b, [(PM, 'uA'), (PM, 'uB'), ('trader', 'uA'), ('trader', 'uB'), ('fee_collector', 'uB')], ['uB'])
+        f = I.ctx.fdiv
+        gross = f(simp(y * o), x + o)
+        fee_sum = simp(f(simp(gross * sf), E18) + f(simp(gross * p), E18) + f(simp(gross * bu), E18))
+        ret = simp(gross - fee_sum)
+        spot = f(simp(y * E18), x)
+        at_spot = f(simp(o * spot), E18)
+        slip = simp(at_spot - gross + fee_sum)
+        I.check('executes_only_within_tolerance', f(simp(slip * E18), simp(ret + slip)) <= cap)
+        I.check('receiver_got_the_return', smt.Eq(b.get('trader', 'uB') - pre.get('trader', 'uB'), ret))
+    return s
+
+
+for _wt in (True, False):
+    obligation('C13', 'S1.swap_enforces_%s' % ('caller_tolerance' if _wt else 'default_tolerance'),
+               entries=['execute', 'swap::commands::swap', 'perform_swap', 'compute_swap', 'assert_max_slippage'], kind='S',
+               statement='an executed constant-product swap has (price impact + fees) / (return + price impact + fees), measured against the pre-trade spot price, '
+                         'within min(max_slippage, 50%%)%s' % ('' if _wt else ' = 1% when omitted'),
+               bounds='reserves, offer [1,2^128), real is_valid fees, tolerance %s' % ('any Decimal' if _wt else 'omitted'),
+               covers=['ok'], replay=_replay_s1(0, 'none') if _wt else None)(_ob_swap_tolerance(_wt))
